@@ -157,5 +157,112 @@ def closedB (g : EGraph) : Bool :=
 def wfB (I : Node → Nat) (g : EGraph) (N : Nat) : Bool :=
   g.repOk N && g.closedB && (g.dom.all fun n => g.out n && decide (I n ≤ g.st n))
 
+/-! ### operations that involve the node group (subnodes, load nodes)
+
+Go                                              Lean
+------------------------------------------------------------------------------------------
+globalNodeGroup.subnodes / .parent              NG.sub / NG.par (field subnodes only: the reasons of
+  (fieldSubnodeReason)                          implementation subnodes need go/types and are outside the model)
+globalNodeGroup.nextNode (fresh *Node)          NG.next (fresh index)
+Node.kind of a new subnode = kind of the base   NG.intr (new subnode inherits the intrinsic status)
+NodeGroup.loadChild / loadBase / loadOps        NG.loadChild / loadBase / loadOps
+FieldSubnode / AnalogousSubnode                 fieldSubnode / (inside weakAssign)
+WeakAssign / StoreField / LoadField             weakAssign / storeField / loadField
+EnsureLoadNode / getHistoryNodeOfOp             ensureLoadNode / historyNode
+CallUnknown (no return nodes)                   callUnknown
+-/
+
+structure NG where
+  next : Nat
+  intr : Node → Nat
+  sub : Node → Nat → Option Node
+  par : Node → Option (Node × Nat)
+  loadChild : Node → Option Node
+  loadBase : Node → Option Node
+  loadOps : Node → List Nat
+
+/-- `FieldSubnode(base, field, _)` -/
+def fieldSubnode (ng : NG) (g : EGraph) (base : Node) (f : Nat) : NG × EGraph × Node :=
+  match ng.sub base f with
+  | some c => (ng, addEdge ng.intr g base c Flags.subnode, c)
+  | none =>
+    let c := ng.next
+    let ng' : NG := { ng with next := c + 1, intr := upd ng.intr c (ng.intr base),
+                              sub := fun b x => if b = base ∧ x = f then some c else ng.sub b x,
+                              par := upd ng.par c (some (base, f)) }
+    (ng', addEdge ng'.intr g base c Flags.subnode, c)
+
+/-- `g.Pointees(src)` (a snapshot) -/
+def pointees (g : EGraph) (src : Node) : List Node := g.succs src
+
+/-- `WeakAssign(dest, src)`; the first component of the fuel-indexed recursion follows subnode edges. -/
+def weakAssign : Nat → NG → EGraph → Node → Node → NG × EGraph
+  | 0, ng, g, _, _ => (ng, g)
+  | fuel + 1, ng, g, dest, src =>
+    let g1 := addNode ng.intr g dest
+    -- `g.Edges(src, nil, EdgeAll)` is evaluated once, before the loop
+    let es : List (Node × Flags) := (pointees g1 src).map fun d => (d, g1.fl src d)
+    es.foldl (fun (acc : NG × EGraph) e =>
+      let a1 := if e.2.ext then (acc.1, addEdge acc.1.intr acc.2 dest e.1 Flags.internal) else acc
+      let a2 := if e.2.int then (a1.1, addEdge a1.1.intr a1.2 dest e.1 Flags.internal) else a1
+      if e.2.sub then
+        match a2.1.par e.1 with
+        | some (_, f) =>
+          let r := fieldSubnode a2.1 a2.2 dest f
+          weakAssign fuel r.1 r.2.1 r.2.2 e.1
+        | none => a2   -- the Go code panics ("Subnode argument is not a subnode")
+      else a2) (ng, g1)
+
+/-- `getHistoryNodeOfOp`: walk up through parents / load bases, remember the last node that has the op -/
+def historyNode (ng : NG) (op : Nat) : Nat → Option Node → Option Node → Option Node
+  | 0, _, acc => acc
+  | _ + 1, none, acc => acc
+  | fuel + 1, some n, acc =>
+    let acc' := if (ng.loadOps n).contains op then some n else acc
+    match ng.par n with
+    | some (p, _) => historyNode ng op fuel (some p) acc'
+    | none => historyNode ng op fuel (ng.loadBase n) acc'
+
+/-- `EnsureLoadNode(loadOp, nil, base)` -/
+def ensureLoadNode (ng : NG) (g : EGraph) (op : Nat) (base : Node) : NG × EGraph :=
+  if g.st base = 0 then (ng, g) else
+  match historyNode ng op (ng.next + 1) (some base) none with
+  | some h => (ng, addEdge ng.intr g base h Flags.external)
+  | none =>
+    match ng.loadChild base with
+    | some l =>
+      let g1 := addEdge ng.intr g base l Flags.external
+      ({ ng with loadOps := fun n => if n = l then op :: ng.loadOps l else ng.loadOps n }, g1)
+    | none =>
+      let l := ng.next
+      let ng1 : NG := { ng with next := l + 1, intr := upd ng.intr l 1,
+                                loadChild := upd ng.loadChild base (some l), loadBase := upd ng.loadBase l (some base),
+                                loadOps := fun n => if n = l then [] else ng.loadOps n }
+      let g1 := addEdge ng1.intr g base l Flags.external
+      let g2 := addEdge ng1.intr g1 base l Flags.external
+      ({ ng1 with loadOps := fun n => if n = l then op :: ng1.loadOps l else ng1.loadOps n }, g2)
+
+/-- `StoreField(addr, val, field, nil)`; `field = none` is the empty field name -/
+def storeField (ng : NG) (g : EGraph) (addr val : Node) (field : Option Nat) : NG × EGraph :=
+  (pointees g addr).foldl (fun (acc : NG × EGraph) p =>
+    match field with
+    | some f =>
+      let r := fieldSubnode acc.1 acc.2 p f
+      weakAssign (r.1.next + 2) r.1 r.2.1 r.2.2 val
+    | none => weakAssign (acc.1.next + 2) acc.1 acc.2 p val) (ng, g)
+
+/-- `LoadField(val, addr, op, field, nil)` -/
+def loadField (ng : NG) (g : EGraph) (val addr : Node) (op : Nat) (field : Option Nat) : NG × EGraph :=
+  (pointees g addr).foldl (fun (acc : NG × EGraph) p =>
+    let r : NG × EGraph × Node := match field with
+      | some f => fieldSubnode acc.1 acc.2 p f
+      | none => (acc.1, acc.2, p)
+    let e := ensureLoadNode r.1 r.2.1 op r.2.2
+    weakAssign (e.1.next + 2) e.1 e.2 val r.2.2) (ng, g)
+
+/-- `CallUnknown(args, [], _)`: the pointees of every argument are leaked -/
+def callUnknown (g : EGraph) (args : List Node) : EGraph :=
+  args.foldl (fun g a => (pointees g a).foldl (fun g n => mergeNodeStatus g n 2) g) g
+
 end EGraph
 end Argot.EGraph
